@@ -16,8 +16,8 @@ func init() {
 			}
 			return 40000
 		},
-		Rule:        "case = one persisted tree (bf 2..64, 1..4000 entries, heights 0..8; every 15th case 5000-40000 entries) over a Load-counting store with NO cache, re-opened from its root; then ~40 point operations, each measured on its own: LoadMast <= 1 node, Clone/Cursor <= 1, Get (present and absent keys of every layer, extremes) <= height+1, Insert (new key at every layer, update) and Delete with unchanged height <= 2*(height+1), cursor Min/Max/Ceil/Forward/Backward <= 2*(height+1); half of the operations run on a fresh clone of the persisted version, the rest accumulate on one tree so that dirty in-memory paths mix with persisted subtrees; reads are counted as distinct names passed to Persist.Load during the call; non-trivial = height >= 2; distinct by (root, op, key)",
-		Assumptions: []string{"nodes read = distinct node names loaded during the call (the number of Load calls is recorded as an observation as well)"},
+		Rule:        "case = one persisted tree (bf 2..64, 1..4000 entries, heights 0..8; every 15th case 5000-40000 entries) over a Load-counting store with NO cache, re-opened from its root; then ~40 point operations, each measured on its own: LoadMast <= 1 node, Clone/Cursor <= 1, Get (present and absent keys of every layer, extremes) <= height+1, Insert (new key at every layer, update) and Delete with unchanged height <= 2*(height+1), cursor Min/Max/Ceil/Forward/Backward <= 2*(height+1); half of the operations run on a fresh clone of the persisted version, the rest accumulate on one tree so that dirty in-memory paths mix with persisted subtrees; reads are counted as Persist.Load calls made during the call (there is no cache, so every node read is a Load; reading one node twice counts twice; the number of distinct names is reported too); non-trivial = height >= 2; distinct by (root, op, key)",
+		Assumptions: []string{"a node read = one Persist.Load call (no cache); by construction a correct Get loads each node of its search path once (<= h+1) and a correct Insert/Delete of a layer-L key loads the search path plus two spines below it (h+L+1 <= 2h+1), so the bounds of the statement leave room"},
 		MinObs:      map[string]int64{"ops_measured": 20000, "ops_on_height_ge3": 2000, "inserts_measured": 3000, "deletes_measured": 3000},
 		Run:         runC16,
 	})
@@ -68,10 +68,11 @@ func runC16(c *fw.C) {
 		c.Obs("load_calls", int64(calls))
 		if bound > 0 {
 			c.MaxObs("max_pct_of_bound_"+op, int64(distinct*100/bound))
+			c.MaxObs("max_pct_calls_of_bound_"+op, int64(calls*100/bound))
 		}
-		if distinct > bound {
+		if calls > bound {
 			c.Violation("C16.reads_only_search_path", map[string]string{"op": op},
-				"%s %s read %d distinct nodes (%d Load calls), bound %d for height %d | cfg{%s} entries=%d", op, keyDesc, distinct, calls, bound, root.Height, cfg, base.M.Len())
+				"%s %s made %d node reads (Load calls; %d distinct nodes), bound %d for height %d | cfg{%s} entries=%d", op, keyDesc, calls, distinct, bound, root.Height, cfg, base.M.Len())
 			return false
 		}
 		return true
@@ -169,10 +170,11 @@ func runC16(c *fw.C) {
 				continue
 			}
 			c.MaxObs("max_pct_of_bound_Insert", int64(distinct*100/(2*(h+1))))
-			if distinct > 2*(h+1) {
+			c.MaxObs("max_pct_calls_of_bound_Insert", int64(calls*100/(2*(h+1))))
+			if calls > 2*(h+1) {
 				c.Violation("C16.reads_only_search_path", map[string]string{"op": "Insert"},
-					"Insert of key %v (layer %d, already present=%v) read %d distinct nodes (%d Load calls), bound %d for unchanged height %d | cfg{%s} entries=%d",
-					k, cfg.KK.Layer(k, cfg.BF), present, distinct, calls, 2*(h+1), h, cfg, target.M.Len())
+					"Insert of key %v (layer %d, already present=%v) made %d node reads (Load calls; %d distinct nodes), bound %d for unchanged height %d | cfg{%s} entries=%d",
+					k, cfg.KK.Layer(k, cfg.BF), present, calls, distinct, 2*(h+1), h, cfg, target.M.Len())
 			} else if h >= 2 {
 				c.NonTrivial(fw.Mix(fw.StrHash(rootStr(root)), 1, fw.StrHash(fmt.Sprint(k))))
 			}
@@ -198,10 +200,11 @@ func runC16(c *fw.C) {
 				continue
 			}
 			c.MaxObs("max_pct_of_bound_Delete", int64(distinct*100/(2*(h+1))))
-			if distinct > 2*(h+1) {
+			c.MaxObs("max_pct_calls_of_bound_Delete", int64(calls*100/(2*(h+1))))
+			if calls > 2*(h+1) {
 				c.Violation("C16.reads_only_search_path", map[string]string{"op": "Delete"},
-					"Delete of key %v (layer %d) read %d distinct nodes (%d Load calls), bound %d for unchanged height %d | cfg{%s} entries=%d",
-					k, cfg.KK.Layer(k, cfg.BF), distinct, calls, 2*(h+1), h, cfg, target.M.Len()+1)
+					"Delete of key %v (layer %d) made %d node reads (Load calls; %d distinct nodes), bound %d for unchanged height %d | cfg{%s} entries=%d",
+					k, cfg.KK.Layer(k, cfg.BF), calls, distinct, 2*(h+1), h, cfg, target.M.Len()+1)
 			} else if h >= 2 {
 				c.NonTrivial(fw.Mix(fw.StrHash(rootStr(root)), 2, fw.StrHash(fmt.Sprint(k))))
 			}
